@@ -193,6 +193,11 @@ func runC06(c *Ctx) {
 	c.RulePrefix = "C15/"
 	runC15(c)
 	c.RulePrefix = ""
+	// an adapter that reports success (nil) without the transfer having happened makes the queue account the
+	// object as completed: the upload-verification rule of C03 (success only through verifyUpload) is shared
+	c.RulePrefix = "C03/"
+	c03Verify(c)
+	c.RulePrefix = ""
 }
 
 // ---- who may decrement / increment the counter ------------------------------------------
